@@ -52,6 +52,11 @@ def spec(case):
     N = x.ndim
     if op == "dot":
         return spec_dot(x, y, case.get("k")), None
+    if op == "hadamard_sum":
+        p = x.copy()
+        for tj in case["more"]:
+            p = p * dense_np(tj)
+        return p.sum(), None
     if op == "normsq":
         return (x * x).sum(), None
     if op == "norm":
@@ -191,7 +196,7 @@ class Prop:
                    "relative to E|t|^k; everything else with 1e-9",
                    "undefined quotients (zero ground truth, constant ground truth, zero variance) are not judged"]
     THEOREMS = ["C06_dot", "C06_dot_partial", "C06_sum", "C06_wsum", "C06_norm", "C06_dist", "C06_dist_sym", "C06_dist_zero_iff",
-                "C06_dist_is_norm_of_difference", "C06_relative_error", "C06_rmse", "C06_var", "C06_r_squared"]
+                "C06_dist_is_norm_of_difference", "C06_relative_error", "C06_rmse", "C06_var", "C06_r_squared", "C06_hadamard_sum", "C06_raw_moment", "C06_normalized_moment"]
 
     # ------------------------------------------------------------------ generation
     def generate(self, rng, tier):
@@ -325,6 +330,15 @@ class Prop:
             s1 = shp(N1); s2 = s1[:kk] + shp(N2 - kk)
             mk("dot", rand_tensor_json(rng, s1, maxr=2), rand_tensor_json(rng, s2, maxr=2), k=k,
                dense=rng.choice(["a", "b"]), cls="dense-operand-partial")
+
+        # hadamard_sum (exact algorithm) of 1..4 tensors of one shape, every format mix
+        for _ in range(120 if quick else 800):
+            N = rng.randint(1, 3); shape = shp(N)
+            M = rng.choice([1, 2, 2, 3, 3, 4])
+            ts = [rand_tensor_json(rng, shape, maxr=2) for _ in range(M)]
+            mk("hadamard_sum", ts[0], more=ts[1:], cls="hadamard_sum", M=M)
+            cases[-1]["tags"]["M"] = M
+            cases[-1].pop("M", None)
 
         # ---- 4. norm, normsq
         for N in (1, 2):
@@ -551,6 +565,8 @@ class Prop:
         if op == "dot":
             kw = {} if case.get("k") is None else {"k": case["k"]}
             return self._out(A.dot(B, **kw) if meth else tn.dot(A, B, **kw))
+        if op == "hadamard_sum":
+            return self._out(tn.hadamard_sum([A] + [to_tn(tj) for tj in case["more"]]))
         if op in ("norm", "normsq", "std"):
             return self._out(getattr(A, op)() if meth else getattr(tn, op)(A))
         if op == "dist":
@@ -665,6 +681,11 @@ class Prop:
             if dense is None:
                 dense = [10 ** 9]
             return "cZ (mkZ (zDot %s %s %d) %s %s)" % (coq_tensor(a), coq_tensor(b), k, coq_natlist(res["shape"]), coq_list(dense))
+        if op == "hadamard_sum":
+            dense = canon_dense(res["dense"])
+            if dense is None:
+                dense = [10 ** 9]
+            return "cZ (mkZ (zHsum [%s]) [] %s)" % ("; ".join(coq_tensor(t) for t in [a] + case["more"]), coq_list(dense))
         if op == "sum":
             dim = case.get("dim")
             dims = list(range(N)) if dim is None else ([dim] if isinstance(dim, int) else list(dim))
